@@ -97,9 +97,9 @@ prop("C16", "exploration",
           "a new observation hash")
 
 prop("C11", "exploration",
-     quick=[("mixed_audit", "fast", 900), ("crates_audit", "fast", 700), ("members_audit", "fast", 500)],
+     quick=[("mixed_audit", "fast", 900), ("crates_audit", "fast", 700), ("members_audit", "fast", 500), ("table_audit", "fast", 500)],
      thorough=[("mixed_audit", "fast", 40000), ("crates_audit", "fast", 40000), ("members_audit", "fast", 30000),
-               ("tracks_audit", "fast", 20000)],
+               ("tracks_audit", "fast", 20000), ("table_audit", "fast", 30000)],
      relevant=["audits"],
      rule="after every step of the crate/track/membership workloads on an on-disk library an independent auditor opens the raw "
           "SimDisk image through its own SQLite connection: integrity_check, foreign_key_check, verify(), every stored blob decoded "
